@@ -92,9 +92,16 @@ Fixpoint nodupN (l : list N) : list N :=
 Definition losers (l : list lrec) : list N :=
   nodupN (filter (fun t => negb (ended l t)) (map l_txn (filter (fun r => match l_kind r with KOther => false | _ => true end) l))).
 
-Definition find_lsn (l : list lrec) (n : N) : option lrec := find (fun r => l_lsn r =? n) l.
+(** lsnMapping: only records that carry an LSN are addressable (DeallocatePage / ReusePage records are written with LSN -1) *)
+Definition find_lsn (l : list lrec) (n : N) : option lrec :=
+  find (fun r => match l_kind r with KOther => false | _ => l_lsn r =? n end) l.
+(** activeTxn[t]: the LSN of the last record of t (DeallocatePage / ReusePage / GracefulShutdown records belong to
+    the dummy transaction MaxInt32, which Redo drops from the table: they are never anybody's last record) *)
 Definition last_of (l : list lrec) (t : N) : option N :=
-  match filter (fun r => l_txn r =? t) (rev l) with r :: _ => Some (l_lsn r) | [] => None end.
+  match filter (fun r => (l_txn r =? t) && match l_kind r with KOther => false | _ => true end) (rev l) with
+  | r :: _ => Some (l_lsn r)
+  | [] => None
+  end.
 
 (** undo of one record: the inverse operation, no LSN stamp, nothing logged *)
 Definition undo_rec (ps : pages) (r : lrec) : pages :=
@@ -156,7 +163,7 @@ Definition rec_ok (ps : pages) (r : lrec) : bool :=
   | KMark p s => match snd (astep (pslots (get_page ps p)) (PMark s)) with OMarked _ => true | _ => false end
   | KApply p s b =>
       match a_at (pslots (get_page ps p)) s with Some (Some (b', _)) => eqb_bytes b b' | _ => false end
-  | KRollback p s => match a_at (pslots (get_page ps p)) s with Some (Some _) => true | _ => false end
+  | KRollback p s => match a_at (pslots (get_page ps p)) s with Some (Some (_, true)) => true | _ => false end   (* only ever logged for a row the same transaction delete-marked *)
   | KUpdate p s old new =>
       match snd (astep (pslots (get_page ps p)) (PUpdate s new true)) with OUpdated o => eqb_bytes o old | _ => false end
   | _ => true
@@ -238,6 +245,12 @@ Definition scope (l : list lrec) : list lrec :=
                 | Some p => if memN p (tracked l) then r else mkR (l_lsn r) (l_txn r) (l_prev r) KNop
                 | None => r
                 end) l.
+
+(** the updates of unfinished transactions in the log do not shrink rows: forward updates never do; only the
+    records of a rollback in progress can (the crash did not hit the middle of an abort that shrank a row) *)
+Definition loser_updates_grow (l : list lrec) : bool :=
+  forallb (fun r => negb (memN (l_txn r) (losers l)) ||
+                    match l_kind r with KUpdate _ _ old new => blen old <=? blen new | _ => true end) l.
 
 (** * What recovery should produce, slot by slot *)
 
@@ -330,7 +343,7 @@ Fixpoint fresh_pages_ok (l : list lrec) (seen : list N) : bool :=
 
 (** everything the theorems assume about a crash image, as one checkable predicate *)
 Definition image_wf (l : list lrec) (disk : pages) : bool :=
-  log_ok l && chains_ok l && strict_ok l && fresh_pages_ok l [] && disk_ok l disk && no_loser_apply l.
+  log_ok l && chains_ok l && strict_ok l && fresh_pages_ok l [] && disk_ok l disk && no_loser_apply l && loser_updates_grow l.
 
 (** the inverse record a rollback writes for a record *)
 Definition inv_kind (k : rkind) : rkind :=
